@@ -759,7 +759,7 @@ func c55RunChildren(t *testing.T, plan []c55PlannedRun, res *kit.Result, sink *c
 	crashes := 0
 	for from, round := 0, 0; from < len(plan); round++ {
 		prog := filepath.Join(dir, fmt.Sprintf("progress-%d.ndjson", round))
-		cmd := exec.Command(os.Args[0], "-test.run=^TestVerif_C55$", "-test.count=1", "-test.timeout=3000s")
+		cmd := exec.Command(os.Args[0], "-test.run=^TestVerif_C55$", "-test.count=1", "-test.timeout=5400s")
 		cmd.Env = append(os.Environ(), "VERIF_C55_CHILD=1", fmt.Sprintf("VERIF_C55_FROM=%d", from), "VERIF_C55_PROGRESS="+prog)
 		out, runErr := cmd.CombinedOutput()
 		began, ended, done := -1, -1, false
